@@ -545,10 +545,10 @@ tx_outs:\n{tx_outs}
             s += tx_in.sequence.serialize()
         else:
             s += int_to_little_endian(input_index, 4)
-        if hash_type & SIGHASH_SINGLE == SIGHASH_SINGLE:
-            s += sha256(self.tx_outs[input_index].serialize())
         if tx_in.witness.has_annex():
             s += sha256(encode_varstr(tx_in.witness[-1]))
+        if hash_type & SIGHASH_SINGLE == SIGHASH_SINGLE:
+            s += sha256(self.tx_outs[input_index].serialize())
         if ext_flag == 1:
             tapleaf_hash = tx_in.witness.tap_leaf().hash()
             # extension defined in BIP0342
@@ -590,7 +590,11 @@ tx_outs:\n{tx_outs}
                 hash_type=hash_type,
             )
         elif script_pubkey.is_p2tr():
-            if len(tx_in.witness) > 1:
+            # script path if there is more than one item besides the annex
+            num_items = len(tx_in.witness)
+            if tx_in.witness.has_annex():
+                num_items -= 1
+            if num_items > 1:
                 ext_flag = 1
             else:
                 ext_flag = 0
